@@ -128,9 +128,12 @@ def _body_ok(body):
     return z3.BoolVal(r) if isinstance(r, bool) else r
 
 
-def _rules(shape, scheme):
+POLNAMES = ['compute:start', 'x', 'a b', 'caf\u00e9:\U0001f600', '%(name)s',
+            'http://x/y', '"q"', 'default', "it's", 'a&b=c']
+
+
+def _rules(shape, scheme, pol='compute:start'):
     url = scheme + '://authz.example/%(name)s/check'
-    pol = 'compute:start'
     if shape == 'direct':
         return {pol: url}, pol
     if shape == 'not':
@@ -147,7 +150,7 @@ def _rules(shape, scheme):
         pol
 
 
-def run_http(ctx, shape, scheme, ctype, fault, tls, blen):
+def run_http(ctx, shape, scheme, ctype, fault, tls, blen, pol=0):
     from oslo_policy import _external, policy
     common.set_ctx(ctx)
     stub = _Stub()
@@ -199,7 +202,7 @@ def run_http(ctx, shape, scheme, ctype, fault, tls, blen):
             elif tls == 'verify-no-ca':
                 over['remote_ssl_verify_server_crt'] = True
         conf = common.new_conf(**over)
-        rules, pol = _rules(shape, scheme)
+        rules, pol = _rules(shape, scheme, POLNAMES[pol])
         enf = common.mk_enforcer(rules=policy.Rules.from_dict(rules),
                                  conf=conf)
         opaque = object()
@@ -445,6 +448,12 @@ def cubes_http(tier, seed):
             for scheme in ('http', 'https'):
                 out.append({'shape': shape, 'scheme': scheme, 'ctype': ct,
                             'fault': 'none', 'tls': 'plain', 'blen': 5})
+    for pi in range(1, len(POLNAMES)):
+        for ct in ctypes:
+            for shape in ('direct', 'alias-chain', 'nested'):
+                out.append({'shape': shape, 'scheme': 'http', 'ctype': ct,
+                            'fault': 'none', 'tls': 'plain', 'blen': 4,
+                            'pol': pi})
     for fault in FAULTS[1:]:
         for shape in SHAPES:
             for scheme in ('http', 'https'):
@@ -480,9 +489,10 @@ def evidence(tier):
                    '(all of them, symbolically); status code symbolic '
                    '100..599; faults %r; TLS file situations %r; both '
                    'content types; the check placed in %d expression '
-                   'shapes; all subsets of roles {admin, member}' % (
+                   'shapes; all subsets of roles {admin, member}; %d policy '
+                   'names (blanks, quotes, non-ASCII, %%(name)s, URL-like)' % (
                        7 if tier == 'quick' else 9, BODY_ALPHABET, FAULTS,
-                       TLS, len(SHAPES)),
+                       TLS, len(SHAPES), len(POLNAMES)),
                    'sequence': '%d consecutive https: checks on one '
                    'enforcer; between checks any of %r; reply one of %r; '
                    'first check healthy or with one TLS file missing; 3 '
